@@ -360,8 +360,15 @@ def run_case(case, ctx):
 # ------------------------------------------------------------------ generators
 def gen_ulist(rng):
     xs = [rng.choice(ELEMS) for _ in range(rng.choice([0, 1, 2, 3, 5, 8]))]
+    long_ = rng.random() < 0.06
+    if long_:
+        # long lists (tens of elements, repeats inside the operand too): any size-dependent path of the set operators is reached
+        pool = ELEMS + list(range(10, 60)) + ['s%d' % i for i in range(20)]
+        xs = [rng.choice(pool) for _ in range(rng.choice([20, 33, 40, 70]))]
     if rng.random() < 0.5:
         other = [rng.choice(ELEMS) for _ in range(rng.choice([0, 1, 2, 4]))]
+        if long_:
+            other = [rng.choice(pool + [100, 100, 101, 'new', 'new']) for _ in range(rng.choice([5, 20, 40]))]
     else:
         other = rng.choice(xs) if xs and rng.random() < 0.5 else rng.choice(ELEMS)
     case = {'kind': 'ulist', 'xs': xs, 'op': rng.choice(['+', '|', '-', '&']), 'other': other}
